@@ -496,6 +496,30 @@ impl<'a> Gen<'a> {
         (QueryExpr::of(Body::Values(rows)), out)
     }
 
+    /// size stream: VALUES lists whose row count sits around the engine's batch / partition thresholds (1000, 1024, 8192, 10000),
+    /// bare (≤ 2049 rows) or as a derived table under COUNT(*) / SUM / MIN / MAX so that the comparison stays cheap
+    fn values_long(&mut self) -> (QueryExpr, Scope) {
+        let n = *self.r.pick(&[1usize, 2, 999, 1000, 1001, 1023, 1024, 1025, 1500, 2048, 2049, 3000, 8192, 8193, 10001]);
+        let ncols = 1 + self.r.below(2) as usize;
+        let rows: Vec<Vec<Expr>> = (0..n).map(|i| (0..ncols).map(|c| if c == 0 { Expr::lit_i((i % 7) as i64) } else { Expr::Lit(Val::S(["a", "b", "ab"][i % 3].to_string()), Ty::Str) }).collect()).collect();
+        self.tag("values"); self.tag("values_long"); self.tag(&format!("values_rows:{}", n));
+        let vq = QueryExpr::of(Body::Values(rows));
+        if n <= 2049 && self.r.chance(1, 2) { self.tag("values_bare");
+            let out: Scope = (0..ncols).map(|i| SCol { ty: if i == 0 { Ty::Int } else { Ty::Str }, sql: format!("column{}", i), name: format!("column{}", i), nullable: false, ncomp: false, bits: Some(5), special: false, narrow: false, wunk: false, derived: false, rel: 0, samples: vec![] }).collect();
+            return (vq, out);
+        }
+        let a = self.rel_alias();
+        let c0 = Expr::Col { i: 0, sql: format!("{}.column0", a) };
+        let aggs = vec![AggCall { f: AggFn::CountStar, arg: None, distinct: false }, AggCall { f: AggFn::Sum, arg: Some(c0.clone()), distinct: false },
+                        AggCall { f: AggFn::Min, arg: Some(c0.clone()), distinct: false }, AggCall { f: AggFn::Max, arg: Some(c0), distinct: false }];
+        let mut proj = vec![]; let mut out: Scope = vec![];
+        for (i, ag) in aggs.iter().enumerate() { let al = self.alias(); proj.push((Expr::Col { i, sql: ag.sql() }, al.clone()));
+            out.push(SCol { ty: Ty::Int, sql: al.clone(), name: al, nullable: true, ncomp: true, bits: Some(20), special: false, narrow: false, wunk: false, derived: false, rel: 0, samples: vec![] }); }
+        self.tag("values_from"); self.tag("values_agg"); self.tag("agg");
+        let sel = Select { from: Some(Rel::Derived { q: Box::new(vq), alias: a }), where_: None, group: Some(Group { keys: vec![], aggs, sets: None }), having: None, proj, distinct: false };
+        (QueryExpr::of(Body::Select(Box::new(sel))), out)
+    }
+
     // ------------------------------------------------------------ SELECT blocks
     fn agg_call(&mut self, sc: &Scope, keyed: bool) -> (AggCall, Ty, Option<u32>) {
         let (c, ty, bits) = self.agg_call_inner(sc, keyed);
@@ -773,6 +797,7 @@ impl<'a> Gen<'a> {
                 self.order_limit(&mut q, &out, primary, true);
                 (q, out)
             }
+            "values" if self.r.chance(1, 12) => self.values_long(),
             "values" => {
                 match self.r.below(4) {
                     0 => { let (q, out) = self.values_query(); self.tag("values_bare"); (q, out) }
